@@ -28,14 +28,14 @@ Print Assumptions C17_set_result_once.
 (* ... and exactly once in every quiescent state (no label enabled): each submit() call was
    either rejected (never delivered, no process) or its waiter holds the result that
    solve_low_level derives from the future, delivered exactly once, and no process of it
-   runs; every shutdown() call has ended (returned, or raised: see F15 below) *)
+   runs; every shutdown() call has returned *)
 Theorem C17_exactly_once_quiescent :
   forall tmos waits sched st,
     run (init tmos waits) sched = Some st -> (forall l, step st l = None) ->
     (forall j jb, nth_error (jobs st) j = Some jb ->
        (spc jb = SRejected /\ wpc jb = WNew /\ deliveries j sched = 0 /\ proc jb = PNone) \/
        (spc jb = SGot (low_level jb) /\ wpc jb = WDone /\ deliveries j sched = 1 /\ proc jb <> PRun)) /\
-    (forall k s, nth_error (sds st) k = Some s -> dpc s = DDone \/ dpc s = DRaised).
+    (forall k s, nth_error (sds st) k = Some s -> dpc s = DDone).
 Proof. exact quiescent_exactly_once. Qed.
 Print Assumptions C17_exactly_once_quiescent.
 
@@ -45,7 +45,7 @@ Theorem C17_no_deadlock :
   forall tmos waits sched st,
     run (init tmos waits) sched = Some st ->
     (exists j jb, nth_error (jobs st) j = Some jb /\ spc jb <> SRejected /\ (forall v, spc jb <> SGot v)) \/
-    (exists k s, nth_error (sds st) k = Some s /\ dpc s <> DDone /\ dpc s <> DRaised) ->
+    (exists k s, nth_error (sds st) k = Some s /\ dpc s <> DDone) ->
     exists l st', step st l = Some st'.
 Proof. exact no_deadlock_run. Qed.
 Print Assumptions C17_no_deadlock.
@@ -61,7 +61,7 @@ Theorem C17_wait_returns :
       (forall j jb, nth_error (jobs st') j = Some jb ->
          (spc jb = SRejected /\ deliveries j (sched ++ ext) = 0) \/
          (spc jb = SGot (low_level jb) /\ deliveries j (sched ++ ext) = 1)) /\
-      (forall k s, nth_error (sds st') k = Some s -> dpc s = DDone \/ dpc s = DRaised).
+      (forall k s, nth_error (sds st') k = Some s -> dpc s = DDone).
 Proof. exact wait_returns. Qed.
 Print Assumptions C17_wait_returns.
 
@@ -86,21 +86,79 @@ Print Assumptions C17_every_step_decreases_rank.
 Theorem C17_schedules_bounded :
   forall tmos waits sched st,
     run (init tmos waits) sched = Some st ->
-    length sched <= 16 * length tmos + (5 + length tmos) * length waits.
+    length sched <= 17 * length tmos + (6 + length tmos) * length waits.
 Proof. exact schedules_bounded. Qed.
 Print Assumptions C17_schedules_bounded.
 
-(* REFUTED (defect F5): "no further job is accepted after shutdown": there is a schedule
-   on which a job is accepted (its worker started) after shutdown() has returned *)
-Theorem C17_no_accept_after_shutdown_refuted :
-  exists tmos waits sched st,
-    run (init tmos waits) sched = Some st /\ accepted_after_return sched.
-Proof. exact no_accept_after_shutdown_refuted. Qed.
-Print Assumptions C17_no_accept_after_shutdown_refuted.
+(* "no further job is accepted after shutdown" (was refuted: F5, repaired by 446a9a7 and
+   2f54d38): on every schedule, no job is accepted (its worker started) after any shutdown()
+   call, of either kind, has returned *)
+Theorem C17_no_accept_after_shutdown :
+  forall tmos waits sched st,
+    run (init tmos waits) sched = Some st -> ~ accepted_after_return sched.
+Proof. exact no_accept_after_shutdown. Qed.
+Print Assumptions C17_no_accept_after_shutdown.
 
-(* REFUTED (defect F6): "after shutdown no solver process keeps running": even without any
-   late acceptance, a process is spawned after shutdown(wait=False) has returned and is
-   running in the final state *)
+(* stronger: once a shutdown() call has taken the executor lock, no job is registered or
+   accepted any more (so the snapshot that call takes under the lock is the final registry) *)
+Theorem C17_no_accept_after_shutdown_lock :
+  forall tmos waits pre l post st k,
+    run (init tmos waits) (pre ++ l :: post) = Some st -> In (LSdAcquire k) pre ->
+    forall j, l <> LSubAppend j /\ l <> LSubStart j.
+Proof. exact no_accept_after_lock. Qed.
+Print Assumptions C17_no_accept_after_shutdown_lock.
+
+(* shutdown(wait=True) (was refuted: F15 -- _join re-raised a job's exception and abandoned the
+   rest -- repaired by 0f4e35b; and the snapshot race, repaired by 2f54d38): when it has
+   returned, NO solver process runs, and every job that was ever accepted has been delivered,
+   exactly once -- whatever happened to the jobs (timeout, Popen failure, cancel) *)
+Theorem C17_wait_shutdown_complete :
+  forall tmos waits sched st k,
+    run (init tmos waits) sched = Some st -> nth_error waits k = Some true -> returned st k = true ->
+    forall j, running st j = false /\ (accepted j sched -> deliveries j sched = 1).
+Proof. exact wait_shutdown_complete. Qed.
+Print Assumptions C17_wait_shutdown_complete.
+
+(* shutdown() never terminates with an exception (of a job) *)
+Theorem C17_shutdown_never_raises :
+  forall tmos waits sched st k,
+    run (init tmos waits) sched = Some st -> ~ shutdown_raised k sched.
+Proof. exact shutdown_never_raises. Qed.
+Print Assumptions C17_shutdown_never_raises.
+
+(* cancel(): a solver process that existed when a cancel task for its job ran is dead from then
+   on (any number of shutdown callers, any order of their cancel tasks) *)
+Theorem C17_cancel_kills_spawned :
+  forall tmos waits sched st j,
+    run (init tmos waits) sched = Some st -> cancelled_while_spawned j sched -> running st j = false.
+Proof. exact cancel_kills. Qed.
+Print Assumptions C17_cancel_kills_spawned.
+
+(* "no solver process keeps running after shutdown", the part that holds: every process that
+   existed when a shutdown() call (either kind, any number of concurrent callers) took the
+   lock is dead when that call has returned *)
+Theorem C17_shutdown_kills_spawned :
+  forall tmos waits sched st k j,
+    run (init tmos waits) sched = Some st -> spawned_before_acquire k j sched ->
+    returned st k = true -> running st j = false.
+Proof. exact shutdown_kills_spawned. Qed.
+Print Assumptions C17_shutdown_kills_spawned.
+
+(* ... and that is ALL that can go wrong with shutdown(wait=False): if a process runs after it
+   has returned, then a cancel task of that call did run for the job, and the process was
+   spawned only after it (the F6 window below) *)
+Theorem C17_nowait_shutdown_only_late_spawn :
+  forall tmos waits sched st k j,
+    run (init tmos waits) sched = Some st -> nth_error waits k = Some false ->
+    returned st k = true -> running st j = true ->
+    exists pre mid post, sched = pre ++ LSdCancel k j :: mid ++ LPopen j true :: post.
+Proof. exact nowait_only_late_spawn. Qed.
+Print Assumptions C17_nowait_shutdown_only_late_spawn.
+
+(* REFUTED (defect F6, not repaired): "after shutdown no solver process keeps running" for
+   shutdown(wait=False): cancel() is a no-op while the worker has not reached Popen yet, so a
+   process is spawned after shutdown(wait=False) has returned (without any late acceptance)
+   and is running in the final state *)
 Theorem C17_no_process_after_shutdown_refuted :
   exists tmos waits sched st k j,
     run (init tmos waits) sched = Some st /\ ~ accepted_after_return sched /\
@@ -108,42 +166,29 @@ Theorem C17_no_process_after_shutdown_refuted :
 Proof. exact no_process_after_shutdown_refuted. Qed.
 Print Assumptions C17_no_process_after_shutdown_refuted.
 
-(* REFUTED (wait=True variant): the join snapshot is taken without the lock, so
-   shutdown(wait=True) can return while a job whose flag test preceded the request is
-   still being registered; its process runs after the return *)
-Theorem C17_join_misses_accepted_job_refuted :
-  exists sched st,
-    run (init [false] [true]) sched = Some st /\ accepted_after_return sched /\
-    returned st 0 = true /\ running st 0 = true.
-Proof. exact join_misses_accepted_job_refuted. Qed.
-Print Assumptions C17_join_misses_accepted_job_refuted.
-
-(* REFUTED (new finding): "waiting always returns" for shutdown(wait=True): _join re-raises
-   the exception of a timed-out / failed job, so shutdown() terminates with that exception,
-   never returns normally afterwards, and has not waited for the remaining jobs -- here job 1,
-   registered before the request, is still running *)
-Theorem C17_shutdown_wait_returns_refuted :
-  exists tmos sched st,
-    run (init tmos [true]) sched = Some st /\ shutdown_raised 0 sched /\
-    ~ accepted_after_return sched /\ raisedb st 0 = true /\ running st 1 = true /\
-    forall ext st', run st ext = Some st' -> raisedb st' 0 = true.
-Proof. exact shutdown_wait_raises_refuted. Qed.
-Print Assumptions C17_shutdown_wait_returns_refuted.
-
-(* non-vacuity: a complete run of a job with a time limit that times out and of a job that
-   answers, next to a shutdown(wait=False) and a shutdown(wait=True): delivered exactly once,
-   reported unknown / unsat, quiescent at the end *)
+(* non-vacuity: a complete run of a job with a time limit that times out, a job that is killed
+   by a shutdown(wait=False) issued while a shutdown(wait=True) is waiting, and a job that is
+   rejected under the lock: delivered exactly once, reported unknown / error, quiescent *)
 Example C17_nonvacuous :
-  let sched := [LSubCheck 0; LSubAcquire 0; LSubAppend 0; LSubStart 0; LSubRelease 0;
-                LSubCheck 1; LSubAcquire 1; LSubAppend 1; LSubStart 1; LSubRelease 1;
-                LPopen 0 true; LPopen 1 true; LSdSet 1; LSdSnap 1; LExit 1; LCommRet 1 AUnsat;
-                LFinally 1; LSetResult 1; LCommTimeout 0; LFinally 0;
-                LSetResult 0; LSubWait 0; LSubWait 1; LSdRaise 1; LSdSet 0; LSdAcquire 0;
-                LSdCancel 0 1; LSdCancel 0 0; LSdReturn 0] in
-  exists st, run (init [true; false] [false; true]) sched = Some st /\
+  let sched := [LSubCheck 0; LSubAcquire 0; LSubRecheck 0; LSubAppend 0; LSubStart 0; LSubRelease 0;
+                LSubCheck 1; LSubAcquire 1; LSubRecheck 1; LSubAppend 1; LSubStart 1; LSubRelease 1;
+                LPopen 0 true; LPopen 1 true; LSubCheck 2; LSdSet 1; LSdAcquire 1; LSdSnap 1; LSdRelease 1;
+                LSubAcquire 2; LSubRecheck 2; LSubUnlock 2;
+                LCommTimeout 0; LFinally 0; LSetResult 0; LSdJoin 1;
+                LSdSet 0; LSdAcquire 0; LSdCancel 0 1; LSdCancel 0 0; LSdReturn 0;
+                LCommExc 1; LFinally 1; LSetResult 1; LSdJoin 1; LSdReturn 1;
+                LSubWait 0; LSubWait 1] in
+  exists st, run (init [true; false; false] [false; true]) sched = Some st /\
     deliveries 0 sched = 1 /\ timed_out 0 sched /\ quiescentb st = true /\
-    map spc (jobs st) = [SGot VUnknown; SGot VUnsat] /\ map proc (jobs st) = [PDead; PDead].
+    cancelled_while_spawned 1 sched /\ spawned_before_acquire 0 1 sched /\
+    returned st 0 = true /\ returned st 1 = true /\
+    map spc (jobs st) = [SGot VUnknown; SGot VRaise; SRejected] /\ map proc (jobs st) = [PDead; PDead; PNone].
 Proof.
   cbv zeta. eexists. split; [vm_compute; reflexivity|].
-  repeat split; try reflexivity. unfold timed_out; simpl; auto 30.
+  split; [reflexivity|]. split; [unfold timed_out; simpl; auto 40|]. split; [reflexivity|].
+  split; [match goal with |- cancelled_while_spawned _ ?s => exists (firstn 28 s), (skipn 29 s), 0 end;
+          split; [reflexivity|simpl; auto 40]|].
+  split; [match goal with |- spawned_before_acquire _ _ ?s => exists (firstn 27 s), (skipn 28 s) end;
+          split; [reflexivity|simpl; auto 40]|].
+  repeat split; reflexivity.
 Qed.
